@@ -262,9 +262,12 @@ class ExprBuilder:
                 if lp:
                     if proj[:len(lp)] != lp:
                         continue
-                    results.append(self._rvalue(s['rv'], proj[len(lp):], d, (dd[1], dd[2])))
+                    r_ = self._rvalue(s['rv'], proj[len(lp):], d, (dd[1], dd[2]))
                 else:
-                    results.append(self._rvalue(s['rv'], proj, d, (dd[1], dd[2])))
+                    r_ = self._rvalue(s['rv'], proj, d, (dd[1], dd[2]))
+                if r_ is not None and r_.kind == 'const' and r_.site is None:
+                    r_ = E('const', const=r_.const, proj=r_.proj, site=(dd[1], dd[2]))
+                results.append(r_)
             else:
                 c = dd[2]
                 lp = tuple(proj_key(p) for p in c.dest['p'])
@@ -272,14 +275,19 @@ class ExprBuilder:
                     continue
                 results.append(self._call(c, proj[len(lp):], d))
         results = [r for r in results if r is not None]
-        # drop exact duplicates
+        # drop exact duplicates (constants remember every block that assigns them: needed to unfold `a || b`)
         uniq = []
-        seen = set()
+        seen = {}
         for r in results:
             k = repr(r)
             if k not in seen:
-                seen.add(k)
+                seen[k] = r
                 uniq.append(r)
+            elif r.kind == 'const' and r.site is not None and seen[k].kind == 'const':
+                first = seen[k]
+                if not isinstance(first.extra, dict):
+                    first.extra = {'sites': [first.site] if first.site else []}
+                first.extra['sites'].append(r.site)
         results = uniq
         if not results:
             return self._root(local, proj)
@@ -831,7 +839,12 @@ def reachable_bodies(facts, body, depth=3, include_closures=True, _seen=None):
         for cb in local_callee_bodies(facts, c):
             reachable_bodies(facts, cb, depth - 1, include_closures, _seen)
     if include_closures:
-        for cb in facts.closures_of(body):
+        cands = {cb.npath: cb for cb in facts.closures_of(body)}
+        for bb, si, dp, ops, lhs in closure_aggregates(body):
+            cb = facts.closure_body(dp)
+            if cb is not None:
+                cands.setdefault(cb.npath, cb)
+        for cb in cands.values():
             reachable_bodies(facts, cb, depth, include_closures, _seen)
     return _seen
 
@@ -1182,3 +1195,310 @@ def necessary_keep_facts(body):
                 payloads.append(e)
                 common = {}
     return common or {}, payloads
+
+
+def count_per_iteration(body, h, marks):
+    """(min, max) number of marked blocks on one trip around the natural loop with header h (header to a latch)"""
+    blks = body.loops().get(h)
+    if not blks:
+        return None
+    latches = [x for x in blks if h in body.succ()[x]]
+    if not latches:
+        return None
+    if h in latches:
+        return (1, 1) if h in set(marks) else (0, 0)
+    return count_on_paths(body, h, latches, marks)
+
+
+def counting_loops(body, bb):
+    """for each natural loop containing bb that provably runs a fixed number of times: (header, kind, bound E)
+       kind 'range'      for _ in 0..N   (iterator = Range { start: 0, end: N }, left only on exhaustion)
+       kind 'countdown'  k = N; while k > 0 { ..; k -= 1 }   (one decrement by 1 on every iteration path)"""
+    out = []
+    eb = ExprBuilder(body)
+    loops = body.loops()
+    succ = body.succ()
+    for h, blks in loops.items():
+        if bb not in blks:
+            continue
+        exits = [(x, s) for x in blks for s in succ[x] if s not in blks]
+        if len(exits) != 1:
+            continue
+        xb = exits[0][0]
+        t = body.blocks[xb]['t']
+        if t['k'] != 'switch':
+            continue
+        d = eb.operand(t['discr'])
+        # range form: the exit tests the discriminant of `next(range)`
+        if d.kind == 'discr':
+            src = d.args[0]
+            rng = [x for x in src.walk() if x.kind == 'agg' and x.name.endswith('Range::Range') and len(x.args) == 2]
+            if src.kind == 'call' and src.name.rsplit('::', 1)[-1] == 'next' and rng and \
+                    rng[0].args[0].kind == 'const' and rng[0].args[0].const.get('v') == '0':
+                out.append((h, 'range', rng[0].args[1]))
+            continue
+        # countdown form: exit when !(k > 0) / k == 0
+        cnd = Cond(body, xb, exits[0][1])
+        cm = cnd.cmp()
+        if not cm:
+            continue
+        o = orient(cm, lambda e: e.kind != 'const')
+        if not o or o[2].kind != 'const' or o[2].const.get('v') != '0' or o[0] not in ('Le', 'Eq'):
+            continue
+        # find the counter local: the operand compared in the header
+        k_local = None
+        for si, s in enumerate(body.blocks[xb]['st']):
+            if s['k'] == 'assign' and s['rv']['k'] == 'bin' and s['rv']['op'] in ('Gt', 'Ne', 'Lt', 'Eq', 'Le', 'Ge'):
+                for side in ('a', 'b'):
+                    op = s['rv'][side]
+                    if op['k'] in ('copy', 'move') and not op['pl']['p']:
+                        # follow one copy
+                        src_l = op['pl']['l']
+                        for s2 in body.blocks[xb]['st'][:si]:
+                            if s2['k'] == 'assign' and s2['lhs']['l'] == src_l and not s2['lhs']['p'] and \
+                                    s2['rv']['k'] == 'use' and s2['rv']['op']['k'] in ('copy', 'move') and \
+                                    not s2['rv']['op']['pl']['p']:
+                                src_l = s2['rv']['op']['pl']['l']
+                        k_local = src_l
+        if k_local is None:
+            continue
+        decs = []
+        init = None
+        for d_ in body.defs().get(k_local, []):
+            inloop = d_[1] in blks
+            if d_[0] == 'assign':
+                e = eb._rvalue(d_[3]['rv'], (), 0, (d_[1], d_[2]))
+            elif d_[0] == 'call':
+                e = eb._call(d_[2], (), 0)
+            else:
+                continue
+            if inloop:
+                decs.append((d_[1], e))
+            else:
+                init = e
+        # in-loop writes: either `k = Sub(k, 1)` directly or through the checked-sub temp
+        ok = bool(decs) and init is not None
+        for dbb, e in decs:
+            x = e
+            if not (x.kind == 'bin' and x.name == 'Sub' and x.args[1].kind == 'const' and x.args[1].const.get('v') == '1'):
+                ok = False
+        if ok:
+            r = count_per_iteration(body, h, [dbb for dbb, _ in decs])
+            if r is not None and r == (1, 1):
+                out.append((h, 'countdown', init))
+    return out
+
+
+def adaptor_of_closure(facts, root, owner):
+    """(parent body, adaptor call) that receives closure `owner` (searching `root` and the closures nested in it)"""
+    for pb in [root] + all_closures(facts, root):
+        if pb is owner:
+            continue
+        for c in pb.find_calls():
+            for cb in closure_args_of_call(facts, pb, c):
+                if cb.npath == owner.npath:
+                    return pb, c
+    return None, None
+
+
+def iteration_context(facts, root, owner, bb):
+    """[E] collections iterated around block bb of `owner` (root or a closure nested in root): iterators of the natural
+    loops containing bb, and - climbing through closures - the receivers of the adaptors (for_each / map / filter ...)
+    that run them, plus the loops around those adaptor calls"""
+    out = []
+    cur, at = owner, bb
+    for _ in range(6):
+        eb = ExprBuilder(cur)
+        for h, blks in cur.loops().items():
+            if at in blks:
+                for c in cur.find_calls('std::iter::Iterator::next'):
+                    if c.bb in blks:
+                        out.append(subst_upvars(facts, cur, eb.operand(c.args[0])))
+        if cur is root:
+            break
+        pb, c = adaptor_of_closure(facts, root, cur)
+        if pb is None:
+            break
+        out.append(subst_upvars(facts, pb, ExprBuilder(pb).arg(c, 0)))
+        cur, at = pb, c.bb
+    return out
+
+
+def expand_calls(facts, e, depth=2, only=None):
+    """rebuild an expression with calls to crate-local functions (one body, value returned is an expression of its
+    parameters) replaced by that expression, arguments substituted — `self.get_executor(id)` becomes
+    `Rem(id, self.num_shards)`. `only`: optional predicate on the callee path."""
+    if depth == 0:
+        return e
+
+    def subst(x, args):
+        if x.kind == 'place' and x.root[0] == 'param' and 1 <= x.root[1] <= len(args):
+            a = args[x.root[1] - 1]
+            if not x.fields:
+                return a
+            s = a.strip()
+            if s.kind == 'place':
+                return E('place', root=s.root, fields=tuple(s.fields) + tuple(x.fields))
+            if s.kind in ('call', 'agg'):
+                return E(s.kind, name=s.name, args=s.args, site=s.site, extra=s.extra,
+                         proj=tuple(s.proj) + tuple(x.fields))
+            return a
+        if not x.args:
+            return x
+        return E(x.kind, name=x.name, args=[subst(a, args) if isinstance(a, E) else a for a in x.args], root=x.root,
+                 fields=x.fields, const=x.const, site=x.site, extra=x.extra, proj=x.proj)
+
+    def rec(x):
+        if not isinstance(x, E):
+            return x
+        args = [rec(a) for a in x.args] if x.args else []
+        y = E(x.kind, name=x.name, args=args, root=x.root, fields=x.fields, const=x.const, site=x.site,
+              extra=x.extra, proj=x.proj) if x.args else x
+        if y.kind == 'call' and not y.proj and (only is None or only(y.name)):
+            cbs = facts.get(y.name)
+            if len(cbs) == 1 and cbs[0].kind in ('Fn', 'AssocFn') and cbs[0].nargs == len(y.args) and \
+                    len(cbs[0].blocks) <= 40:
+                r = ExprBuilder(cbs[0]).place(0, ())
+                if r.kind != 'unknown' and not any(z.kind == 'unknown' for z in r.walk()):
+                    return expand_calls(facts, subst(r, y.args), depth - 1, only)
+        return y
+    return rec(e)
+
+
+def expand_conditions(body, conds, limit=16):
+    """path conditions with materialised `a || b` / `matches!(..)` bools unfolded: a bool condition whose expression is
+    a phi of alternatives (built in different blocks) holds when ONE of the non-false alternatives was taken; each
+    alternative brings the path conditions of the block that built it. Returns a list of condition lists (a disjunction
+    of conjunctions); a rule that must hold at the site has to hold for every list."""
+    variants = [[]]
+    for c in conds:
+        alts = None
+        if c.kind == 'bool' and c.truth is True and c.expr is not None and c.expr.kind == 'phi':
+            alts = []
+
+            def flat(e):
+                if e.kind == 'phi':
+                    for a in e.args:
+                        flat(a)
+                else:
+                    alts.append(e)
+            flat(c.expr)
+        if not alts:
+            variants = [v + [c] for v in variants]
+            continue
+        new = []
+        for a in alts:
+            if a.kind == 'const' and a.const.get('v') is False:
+                continue
+            sites = [a.site] if a.site else []
+            if a.kind == 'const' and isinstance(a.extra, dict):
+                sites = a.extra.get('sites') or sites
+            for st in (sites or [None]):
+                extra = list(path_conditions(body, st[0])) if st else []
+                extra = [x for x in extra if x is not c]
+                if a.kind != 'const':
+                    extra.append(_ExprCond(a, True, c.ln))
+                for v in variants:
+                    new.append(v + extra)
+        variants = new[:limit] if new else [v + [c] for v in variants]
+    return variants
+
+
+class _ExprCond:
+    """a condition given as an expression known to be true/false (same reading interface as Cond)"""
+    kind = 'bool'
+    variants = None
+    values = None
+
+    def __init__(self, expr, truth, ln=''):
+        while expr.kind == 'un' and expr.name == 'Not':
+            expr = expr.args[0]
+            truth = not truth
+        self.expr = expr
+        self.truth = truth
+        self.ln = ln
+
+    def cmp(self):
+        return as_cmp(self.expr, self.truth)
+
+    def __repr__(self):
+        return '%s%r' % ('' if self.truth else '!', self.expr)
+
+
+def eval_option_paths(body, limit=4000):
+    """enumerate acyclic normal paths entry->return of an Option-returning body; [(conds, tag)] with tag 'Some' / 'None'
+    / '?' — which variant the returned value has on that path (bool locals are constant-propagated, so `matches!`,
+    `a && b`, early `return None` all reduce to the enum tests actually taken on the path)"""
+    out = []
+    succ = body.succ()
+    count = [0]
+
+    def bval(env, op):
+        if op['k'] == 'const':
+            v = op['c'].get('v')
+            return v if isinstance(v, bool) else None
+        if op['k'] in ('copy', 'move') and not op['pl']['p']:
+            v = env.get(op['pl']['l'])
+            return v if isinstance(v, bool) else None
+        return None
+
+    def walk(bb, env, conds, seen):
+        if count[0] > limit:
+            return
+        env = dict(env)
+        for s in body.blocks[bb]['st']:
+            if s['k'] != 'assign' or s['lhs']['p']:
+                continue
+            l = s['lhs']['l']
+            rv = s['rv']
+            if rv['k'] == 'use':
+                op = rv['op']
+                if op['k'] == 'const':
+                    v = op['c'].get('v')
+                    env[l] = v if isinstance(v, bool) else None
+                elif op['k'] in ('copy', 'move') and not op['pl']['p']:
+                    env[l] = env.get(op['pl']['l'])
+                else:
+                    env[l] = None
+            elif rv['k'] == 'un' and rv['op'] == 'Not':
+                v = bval(env, rv['a'])
+                env[l] = (not v) if isinstance(v, bool) else None
+            elif rv['k'] == 'agg' and rv.get('ak') == 'adt' and norm(rv.get('adt', '')).endswith('option::Option'):
+                env[l] = 'tag:' + rv['v']
+            else:
+                env[l] = None
+        t = body.blocks[bb]['t']
+        if t['k'] == 'return':
+            count[0] += 1
+            v = env.get(0)
+            out.append((list(conds), v[4:] if isinstance(v, str) and v.startswith('tag:') else '?'))
+            return
+        if t['k'] == 'call' and not t['dest']['p']:
+            nm = t['f'].get('c', {}).get('fn', '') if t['f'].get('k') == 'const' else ''
+            env[t['dest']['l']] = None
+        if t['k'] == 'switch':
+            v = bval(env, t['discr']) if t['ty'] == 'bool' else None
+            edges = body.switch_edges(bb)
+            tgts = []
+            for val, tg in edges:
+                if tg not in tgts:
+                    tgts.append(tg)
+            for tg in tgts:
+                if tg not in succ[bb] or tg in seen:
+                    continue
+                if isinstance(v, bool):
+                    vals = [val for val, x in edges if x == tg]
+                    is_zero_edge = '0' in vals
+                    takes = (not v) if is_zero_edge and None not in vals else (v if None in vals and '0' not in vals else None)
+                    if takes is False:
+                        continue
+                    walk(tg, env, conds, seen | {tg})
+                else:
+                    walk(tg, env, conds + [Cond(body, bb, tg)], seen | {tg})
+            return
+        for s in succ[bb]:
+            if s not in seen:
+                walk(s, env, conds, seen | {s})
+
+    walk(0, {}, [], {0})
+    return out
